@@ -9,10 +9,10 @@ open Robust AMap
 /-! ### NICK -/
 
 theorem serverNick_fn_core (p0 p3 tr : String) :
-    ∀ s : Session, (updateIrcPrefix { s with nick := p0, username := p3, realname := tr }).id = s.id ∧
-      (updateIrcPrefix { s with nick := p0, username := p3, realname := tr }).deleted = s.deleted ∧
-      (updateIrcPrefix { s with nick := p0, username := p3, realname := tr }).channels = s.channels ∧
-      (updateIrcPrefix { s with nick := p0, username := p3, realname := tr }).nick = p0 :=
+    ∀ s : Session, (updateIrcPrefix { s with nick := p0, username := truncateUsername p3, realname := tr }).id = s.id ∧
+      (updateIrcPrefix { s with nick := p0, username := truncateUsername p3, realname := tr }).deleted = s.deleted ∧
+      (updateIrcPrefix { s with nick := p0, username := truncateUsername p3, realname := tr }).channels = s.channels ∧
+      (updateIrcPrefix { s with nick := p0, username := truncateUsername p3, realname := tr }).nick = p0 :=
   fun _ => ⟨rfl, rfl, rfl, rfl⟩
 
 theorem cmdServerNick_mid {c0 c c' : Ctx} {sid : Id} {m : IrcMsg} (h : Mid c0 c sid)
